@@ -100,6 +100,7 @@ impl Check {
     pub fn new(prop: &'static str, tier: Tier, budget: Duration) -> Self {
         let seed = std::env::var("VERIF_SEED").ok().and_then(|s| s.parse().ok()).unwrap_or(0);
         let start = Instant::now();
+        Self::install_hang_handler(prop, tier, seed, start);
         Check {
             prop,
             tier,
@@ -126,6 +127,48 @@ impl Check {
             busy_loops: 0,
             busy_loop_sample: None,
         }
+    }
+
+    /// Install the watchdog's handler: an execution whose task poll never returns ends the run with a
+    /// replay file, an evidence file that says the exploration was aborted, and a verdict line.
+    fn install_hang_handler(prop: &'static str, tier: Tier, seed: i64, start: Instant) {
+        *crate::simnet::HANG_HANDLER.lock().unwrap() = Some(Box::new(move |rec, cfg, is_violation| {
+            let root = verif_root();
+            let execs = crate::simnet::EXECS_DONE.load(std::sync::atomic::Ordering::Relaxed);
+            let dir = root.join("replays").join(prop);
+            let _ = std::fs::create_dir_all(&dir);
+            let path = dir.join("poll-never-returns.json");
+            let detail = format!(
+                "a task poll of the endpoint did not return within the watchdog limit (an endless loop inside one poll): the execution cannot continue and the exploration was aborted after {execs} executions; events so far {:?}",
+                rec.labels
+            );
+            let body = json!({
+                "property": prop, "tier": tier.name(), "clause": "poll-never-returns", "witness": "a task poll never returned",
+                "detail": detail,
+                "replay": {"cfg": cfg, "choices": rec.choices, "events": rec.labels, "log": rec.log, "note": "replaying this schedule does not terminate either; run `mc replay` under a timeout"},
+            });
+            let _ = std::fs::write(&path, serde_json::to_string_pretty(&body).unwrap());
+            let ev = json!({
+                "property_id": prop, "tier": tier.name(), "seed": seed, "level": "model_checking",
+                "coverage": {
+                    "evaluations": execs, "distinct_nontrivial": 0,
+                    "rule": "ABORTED: a task poll of the library never returned in the execution written to the replay file; counts are the executions completed before that",
+                    "samples": [rec.labels], "states": execs.max(1), "transitions": execs.max(1), "traces_validated_against_impl": execs,
+                    "exhaustive": false, "caps_hit": ["aborted by the watchdog: poll never returned"],
+                },
+                "assumptions": [], "wall_s": start.elapsed().as_secs_f64(), "violations": if is_violation { 1 } else { 0 },
+            });
+            let evdir = root.join("evidence");
+            let _ = std::fs::create_dir_all(&evdir);
+            let _ = std::fs::write(evdir.join(format!("{prop}.json")), serde_json::to_string_pretty(&ev).unwrap());
+            if is_violation {
+                println!("VIOLATION property={prop} replay={}", path.display());
+                println!("  clause=poll-never-returns witness=a task poll never returned");
+                println!("  {}", detail.chars().take(600).collect::<String>());
+                println!("{prop} {}: evaluations={execs} exhaustive=false unknown_violations=1 (aborted) wall={:.1}s", tier.name(), start.elapsed().as_secs_f64());
+                std::process::exit(1);
+            }
+        }));
     }
 
     pub fn time_left(&self) -> Duration {
